@@ -35,7 +35,33 @@ type crafted struct {
 	Honest  bool
 	Channel string // channel named by the inner message as sent
 	From    string // claimed sender (b58)
-	msg     *peer.SignedMsg
+	// Shadow: a forged variant that carries the SAME payload as an authentic
+	// message (only the claimed sender / the inner channel differ). It is not
+	// registered as ground truth of its own: the authentic original stays the
+	// truth for that payload and the wrong-sender / wrong-channel clauses judge.
+	Shadow bool
+	msg    *peer.SignedMsg
+}
+
+// histRec is one message already written on the hostile stream, in wire order.
+type histRec struct {
+	c       *crafted
+	claimed *keys.Identity // identity named as sender (nil: not a known identity)
+}
+
+// history-dependent classes: what is forged depends on what was presented on
+// the same stream before (accepted or rejected).
+var c27histOpeners = []string{"honest", "honest", "honest-blake3", "hist-honest-by-attacker", "honest-unsubscribed-channel"}
+var c27histMiddles = []string{"hist-rejected-claiming-attacker", "hist-rejected-claiming-attacker", "hist-rejected-claiming-other", "hist-honest-by-attacker"}
+var c27histForgeries = []string{
+	"hist-forged-as-last-accepted-signed-by-prev-claimed",
+	"hist-forged-as-earlier-sender-signed-by-attacker",
+	"hist-forged-as-earlier-sender-signed-by-earlier-claimed",
+	"hist-reused-signature-changed-data",
+	"hist-reused-signature-changed-channel",
+	"hist-reused-signature-changed-sender",
+	"hist-reused-signature-on-other-message",
+	"hist-reused-pubkey-of-prev-claimed",
 }
 
 var c27classes = []string{
@@ -55,6 +81,81 @@ type crafter struct {
 	subbed  []string // channels V subscribes
 	unsub   string   // a channel V does not subscribe (W does)
 	honest  []*crafted
+	hist    []histRec
+	byID    map[string]*keys.Identity
+}
+
+func (c *crafter) ident(id string) *keys.Identity {
+	if c.byID == nil {
+		c.byID = map[string]*keys.Identity{}
+		for _, k := range append([]*keys.Identity{c.evil}, c.signers...) {
+			c.byID[k.ID.String()] = k
+		}
+	}
+	return c.byID[id]
+}
+
+// lastAccepted returns the most recent authentic message of the stream history.
+func (c *crafter) lastAccepted() *crafted {
+	for i := len(c.hist) - 1; i >= 0; i-- {
+		if c.hist[i].c.Honest {
+			return c.hist[i].c
+		}
+	}
+	return nil
+}
+
+// earlierAccepted returns a PRNG-chosen authentic message of the stream history.
+func (c *crafter) earlierAccepted() *crafted {
+	var hs []*crafted
+	for _, h := range c.hist {
+		if h.c.Honest {
+			hs = append(hs, h.c)
+		}
+	}
+	if len(hs) == 0 {
+		return nil
+	}
+	return hs[c.rng.IntN(len(hs))]
+}
+
+// otherThan returns pref if it is a known identity different from id, else the
+// attacker's identity, else some signer different from id.
+func (c *crafter) otherThan(id string, pref *keys.Identity) *keys.Identity {
+	if pref != nil && pref.ID.String() != id {
+		return pref
+	}
+	if c.evil.ID.String() != id {
+		return c.evil
+	}
+	for _, k := range c.signers {
+		if k.ID.String() != id {
+			return k
+		}
+	}
+	return c.evil
+}
+
+// breakAfterSigning damages an authentic message in a PRNG-chosen way.
+func (c *crafter) breakAfterSigning(out *crafted, k *keys.Identity, ch string, ht hash.HashType, in *pubmessage.PubMessageInner) {
+	switch c.rng.IntN(4) {
+	case 0: // body replaced after signing
+		out.msg = signInner(k.Priv, refPubCtx+ch, ht, in)
+		c.n++
+		out.Payload = fmt.Sprintf("%s/m%d/%s-altered", c.tag, c.n, out.Class)
+		reInner(out.msg, func(in *pubmessage.PubMessageInner) { in.Data = []byte(out.Payload) })
+	case 1: // signature damaged
+		out.msg = signInner(k.Priv, refPubCtx+ch, ht, in)
+		sd := append([]byte(nil), out.msg.Signature.SigData...)
+		sd[c.rng.IntN(len(sd))] ^= 1 << c.rng.UintN(8)
+		out.msg.Signature.SigData = sd
+	case 2: // signed under another context
+		out.msg = signInner(k.Priv, refPubCtx+c.unsub, ht, in)
+	default: // signed for another channel, inner channel rewritten
+		in.Channel = c.unsub
+		out.msg = signInner(k.Priv, refPubCtx+c.unsub, ht, in)
+		reInner(out.msg, func(in *pubmessage.PubMessageInner) { in.Channel = ch })
+	}
 }
 
 func signInner(priv crypto.PrivKey, ctx string, ht hash.HashType, in *pubmessage.PubMessageInner) *peer.SignedMsg {
@@ -172,6 +273,122 @@ func (c *crafter) make(class string) *crafted {
 		out.msg = signInner(k.Priv, refPubCtx+ch, ht, in)
 		forged := signInner(c.evil.Priv, refPubCtx+ch, ht, in)
 		out.msg.Signature = forged.Signature
+	// ---- history-dependent classes ----
+	case "hist-honest-by-attacker":
+		// the attacker's own, authentic message (loads the attacker's key into whatever the receiver keeps per stream)
+		out.From = c.evil.ID.String()
+		out.msg, out.Honest = signInner(c.evil.Priv, refPubCtx+ch, ht, in), true
+	case "hist-rejected-claiming-attacker":
+		// names the attacker as sender, signed by the attacker, damaged after signing: must be rejected
+		out.From = c.evil.ID.String()
+		c.breakAfterSigning(out, c.evil, ch, ht, in)
+	case "hist-rejected-claiming-other":
+		// the same for a sender other than the one accepted last
+		s := k
+		if la := c.lastAccepted(); la != nil {
+			s = c.otherThan(la.From, k)
+		}
+		out.From = s.ID.String()
+		c.breakAfterSigning(out, s, ch, ht, in)
+	case "hist-forged-as-last-accepted-signed-by-prev-claimed":
+		// claims the sender of the last ACCEPTED message, signed with the key of the sender
+		// named by the message presented immediately before (accepted or rejected)
+		claim := k.ID.String()
+		if la := c.lastAccepted(); la != nil && c.ident(la.From) != nil {
+			claim = la.From
+		}
+		var pref *keys.Identity
+		if len(c.hist) > 0 {
+			pref = c.hist[len(c.hist)-1].claimed
+		}
+		key := c.otherThan(claim, pref)
+		out.From = claim
+		out.msg = signInner(key.Priv, refPubCtx+ch, ht, in)
+		out.msg.FromPeerId = claim
+	case "hist-forged-as-earlier-sender-signed-by-attacker":
+		claim := k.ID.String()
+		if ea := c.earlierAccepted(); ea != nil && c.ident(ea.From) != nil {
+			claim = ea.From
+		}
+		key := c.otherThan(claim, c.evil)
+		out.From = claim
+		out.msg = signInner(key.Priv, refPubCtx+ch, ht, in)
+		out.msg.FromPeerId = claim
+	case "hist-forged-as-earlier-sender-signed-by-earlier-claimed":
+		claim := k.ID.String()
+		if ea := c.earlierAccepted(); ea != nil && c.ident(ea.From) != nil {
+			claim = ea.From
+		}
+		var pref *keys.Identity
+		if len(c.hist) > 0 {
+			pref = c.hist[c.rng.IntN(len(c.hist))].claimed
+		}
+		key := c.otherThan(claim, pref)
+		out.From = claim
+		out.msg = signInner(key.Priv, refPubCtx+ch, ht, in)
+		out.msg.FromPeerId = claim
+	case "hist-reused-pubkey-of-prev-claimed":
+		// claims an earlier accepted sender, signed by the previously named sender, and carries
+		// that signer's public key in the signature (a receiver must not prefer it over the sender id)
+		claim := k.ID.String()
+		if ea := c.earlierAccepted(); ea != nil && c.ident(ea.From) != nil {
+			claim = ea.From
+		}
+		var pref *keys.Identity
+		if len(c.hist) > 0 {
+			pref = c.hist[len(c.hist)-1].claimed
+		}
+		key := c.otherThan(claim, pref)
+		out.From = claim
+		out.msg = signInner(key.Priv, refPubCtx+ch, ht, in)
+		out.msg.FromPeerId = claim
+		if pk, err := crypto.MarshalPublicKey(key.Pub); err == nil {
+			out.msg.Signature.PubKey = pk
+		}
+	case "hist-reused-signature-changed-data", "hist-reused-signature-changed-channel", "hist-reused-signature-changed-sender", "hist-reused-signature-on-other-message":
+		ea := c.earlierAccepted()
+		if ea == nil || c.ident(ea.From) == nil {
+			// nothing accepted yet on this stream: degrade to a plain forgery
+			out.msg = signInner(c.evil.Priv, refPubCtx+ch, ht, in)
+			out.msg.FromPeerId = k.ID.String()
+			break
+		}
+		out.msg = ea.msg.CloneVT()
+		out.From, out.Channel = ea.From, ea.Channel
+		switch class {
+		case "hist-reused-signature-changed-data":
+			reInner(out.msg, func(in *pubmessage.PubMessageInner) { in.Data = []byte(pay) })
+		case "hist-reused-signature-changed-channel":
+			// same data, inner channel re-targeted to another channel (subscribed or not)
+			to := c.unsub
+			for _, o := range c.subbed {
+				if o != ea.Channel {
+					to = o
+				}
+			}
+			if to == ea.Channel {
+				to = c.subbed[0]
+			}
+			if to == ea.Channel {
+				// single subscribed channel and the original was for the unsubscribed one
+				reInner(out.msg, func(in *pubmessage.PubMessageInner) { in.Data = []byte(pay) })
+				break
+			}
+			out.Payload, out.Shadow = ea.Payload, true
+			reInner(out.msg, func(in *pubmessage.PubMessageInner) { in.Channel = to })
+		case "hist-reused-signature-changed-sender":
+			// verbatim authentic message re-attributed to another identity
+			o := c.otherThan(ea.From, c.signers[c.rng.IntN(len(c.signers))])
+			out.Payload, out.Shadow = ea.Payload, true
+			out.msg.FromPeerId = o.ID.String()
+		default:
+			// the accepted signature attached to a different message of the same sender
+			s := c.ident(ea.From)
+			fresh := signInner(s.Priv, refPubCtx+ch, ht, in)
+			fresh.Signature = out.msg.Signature.CloneVT()
+			out.msg = fresh
+			out.Channel = ch
+		}
 	default:
 		panic("unknown class " + class)
 	}
@@ -179,6 +396,11 @@ func (c *crafter) make(class string) *crafted {
 		c.honest = append(c.honest, out)
 	}
 	return out
+}
+
+// record appends a message to the stream history (call in wire order).
+func (c *crafter) record(out *crafted) {
+	c.hist = append(c.hist, histRec{c: out, claimed: c.ident(out.msg.GetFromPeerId())})
 }
 
 func indexOf(s []string, v string) int {
@@ -198,10 +420,11 @@ type c27script struct {
 	Garbage  string // "", "bad-proto", "oversize"
 	HostSubs bool   // the hostile peer announces subscriptions
 	HonestN  int    // honest API publishes by V and W interleaved
+	Chains   int    // number of history-dependent forgery chains spliced into Packets
 }
 
 func (s *c27script) desc() string {
-	return fmt.Sprintf("vsubs=%v chunk=%d garbage=%q hostsubs=%v honestN=%d packets=%v", s.VSubs, s.Chunk, s.Garbage, s.HostSubs, s.HonestN, s.Packets)
+	return fmt.Sprintf("vsubs=%v chunk=%d garbage=%q hostsubs=%v honestN=%d chains=%d packets=%v", s.VSubs, s.Chunk, s.Garbage, s.HostSubs, s.HonestN, s.Chains, s.Packets)
 }
 
 func genC27(rng *rand.Rand, idx int) *c27script {
@@ -228,6 +451,69 @@ func genC27(rng *rand.Rand, idx int) *c27script {
 	}
 	// every class shows up regularly: force one per script round-robin
 	s.Packets = append(s.Packets, []string{c27classes[idx%len(c27classes)], "honest"})
+	if idx%2 == 1 {
+		// history-dependent forgeries: chains "something accepted -> something presented (accepted or
+		// rejected, naming another sender) -> forgery derived from both", spliced into the script as
+		// contiguous runs, split over packets in every way
+		s.Chains = 2 + rng.IntN(3)
+		for c := 0; c < s.Chains; c++ {
+			var steps []string
+			steps = append(steps, c27histOpeners[rng.IntN(len(c27histOpeners))])
+			if rng.IntN(4) == 0 {
+				steps = append(steps, c27histOpeners[rng.IntN(len(c27histOpeners))])
+			}
+			if rng.IntN(6) != 0 {
+				steps = append(steps, c27histMiddles[rng.IntN(len(c27histMiddles))])
+			}
+			if rng.IntN(4) == 0 {
+				// a further presented message of any kind between the two
+				if rng.IntN(2) == 0 {
+					steps = append(steps, c27histMiddles[rng.IntN(len(c27histMiddles))])
+				} else {
+					steps = append(steps, c27classes[rng.IntN(len(c27classes))])
+				}
+			}
+			forg := c27histForgeries[rng.IntN(len(c27histForgeries))]
+			if c == 0 {
+				forg = c27histForgeries[(idx/2)%len(c27histForgeries)]
+			} else if rng.IntN(3) == 0 {
+				forg = c27histForgeries[0]
+			}
+			steps = append(steps, forg)
+			if rng.IntN(3) == 0 {
+				// a second forgery on the state the first one left behind
+				steps = append(steps, c27histForgeries[rng.IntN(len(c27histForgeries))])
+			}
+			if rng.IntN(2) == 0 {
+				steps = append(steps, "honest")
+			}
+			var run [][]string
+			switch rng.IntN(3) {
+			case 0: // one entry per packet
+				for _, st := range steps {
+					run = append(run, []string{st})
+				}
+			case 1: // the whole chain in one packet
+				run = append(run, steps)
+			default: // PRNG cuts
+				cur := []string{}
+				for _, st := range steps {
+					cur = append(cur, st)
+					if rng.IntN(2) == 0 {
+						run = append(run, cur)
+						cur = []string{}
+					}
+				}
+				if len(cur) > 0 {
+					run = append(run, cur)
+				}
+			}
+			at := rng.IntN(len(s.Packets) + 1)
+			s.Packets = append(s.Packets[:at:at], append(run, s.Packets[at:]...)...)
+		}
+		// the stream must stay live to the end
+		s.Packets = append(s.Packets, []string{"honest"})
+	}
 	if rng.IntN(3) == 0 {
 		s.Chunk = 1 + rng.IntN(9)
 	}
@@ -239,6 +525,9 @@ func genC27(rng *rand.Rand, idx int) *c27script {
 	}
 	s.HostSubs = rng.IntN(2) == 0
 	s.HonestN = rng.IntN(5)
+	if s.Chains > 0 {
+		s.HonestN = 2 + rng.IntN(5) // other streams' traffic interleaved
+	}
 	return s
 }
 
@@ -315,13 +604,23 @@ func runC27(r *vf.Run, env *g9mesh.Env, pool []*keys.Identity, s *c27script, jr 
 	// and the honest API publishers then run concurrently
 	var wg sync.WaitGroup
 	sent := map[string]int{}
+	forged, histForged := 0, 0
 	var pkts []*floodsub.Packet
 	for _, cl := range s.Packets {
 		pkt := &floodsub.Packet{}
 		for _, class := range cl {
 			c := cr.make(class)
-			reg(c)
-			sent[c.Class]++
+			cr.record(c)
+			if !c.Shadow {
+				reg(c)
+			}
+			sent[class]++
+			if !c.Honest {
+				forged++
+			}
+			if strings.HasPrefix(class, "hist-") && !c.Honest {
+				histForged++
+			}
 			pkt.Publish = append(pkt.Publish, c.msg)
 		}
 		pkts = append(pkts, pkt)
@@ -419,20 +718,24 @@ func runC27(r *vf.Run, env *g9mesh.Env, pool []*keys.Identity, s *c27script, jr 
 					r.Violation("floodsub/forwarded-unknown-message", fmt.Sprintf("node %d put data %q on the wire that nobody signed", p.From, pi.Payload), wit(map[string]any{"pipe": p.Name}))
 				case !c.Honest:
 					r.Violation("floodsub/forwarded-forged/"+c.Class, fmt.Sprintf("node %d forwarded a %s message %q on %s", p.From, c.Class, pi.Payload, p.Name), wit(map[string]any{"pipe": p.Name}))
+				case pi.From != c.From:
+					r.Violation("floodsub/forwarded-wrong-sender", fmt.Sprintf("node %d forwarded message %q, signed by %s, as sent by %s", p.From, pi.Payload, c.From, pi.From), wit(map[string]any{"pipe": p.Name}))
+				case pi.Channel != c.Channel:
+					r.Violation("floodsub/forwarded-wrong-channel", fmt.Sprintf("node %d forwarded message %q, signed for channel %q, with inner channel %q", p.From, pi.Payload, c.Channel, pi.Channel), wit(map[string]any{"pipe": p.Name}))
 				case !subsOf[p.From][c.Channel]:
 					r.Violation("floodsub/forwarded-unsubscribed-channel", fmt.Sprintf("node %d forwarded message %q for channel %q which it does not subscribe", p.From, pi.Payload, c.Channel), wit(map[string]any{"pipe": p.Name}))
 				}
 			}
 		}
 	}
-	forged := 0
 	var cls []string
 	for c, n := range sent {
 		r.Count("sent_"+c, n)
-		if !strings.HasPrefix(c, "honest") {
-			forged += n
-		}
 		cls = append(cls, c)
+	}
+	r.Count("history_dependent_forgeries_sent", histForged)
+	if s.Chains > 0 {
+		r.Count("scripts_with_history_chains", 1)
 	}
 	sortStrings(cls)
 	processed := hd.BA.Processed()
@@ -454,7 +757,7 @@ func sortStrings(s []string) {
 func TestC27(t *testing.T) {
 	r := vf.Start(t, "C27", vf.Exploration)
 	defer r.Finish()
-	r.SetRule("script = a real FloodSub node V (subscribing alpha, beta or both) with a real honest neighbour W (subscribing alpha, beta, gamma: it would take anything V forwards) and a hostile stream on which the harness writes 5-12 publish packets of 1-3 crafted SignedMsgs (20 classes: honest, honest for a channel V does not subscribe, replay, tampered body, inner channel rewritten, foreign signature with claimed sender, wrong signing contexts, empty channel, bad/empty sender, damaged/missing signature, changed hash type ...; claimed senders include V and W themselves), optional chunked delivery (1-9 bytes per read), optional trailing garbage frame, interleaved with 0-4 honest API publishes by V and W. Non-trivial = at least one forged message was written and at least one authentic message from the hostile stream was handed to a V handler (so the stream was live and the reference signing context is right). Oracle = harness ground truth by construction: every handler callback and every copy V or W put on any wire must be a message that is authentic (signed by the claimed sender under context+channel), for the handler's / a subscribed channel, with the true sender reported. Evaluated at exact quiescence.")
+	r.SetRule("script = a real FloodSub node V (subscribing alpha, beta or both) with a real honest neighbour W (subscribing alpha, beta, gamma: it would take anything V forwards) and a hostile stream on which the harness writes 5-12 publish packets of 1-3 crafted SignedMsgs (20 classes: honest, honest for a channel V does not subscribe, replay, tampered body, inner channel rewritten, foreign signature with claimed sender, wrong signing contexts, empty channel, bad/empty sender, damaged/missing signature, changed hash type ...; claimed senders include V and W themselves), optional chunked delivery (1-9 bytes per read), optional trailing garbage frame, interleaved with 0-4 honest API publishes by V and W. Every second script additionally carries 2-4 history-dependent forgery chains on the hostile stream (wire order = history): an accepted message (sender A; also the attacker's own authentic message or one for an unsubscribed channel), then optionally a message naming another sender X that is REJECTED (damaged after signing) or accepted, optionally a further message, then a forgery derived from that history: claims the last accepted / an earlier accepted sender but is signed with the key of the sender named immediately before / the attacker / any earlier named sender (with or without that signer's public key attached), or re-uses the signature of an earlier accepted message with changed data, changed inner channel, changed sender, or on another message of the same sender; optionally a second forgery; chains are split over packets in every way (one entry per packet, whole chain in one packet, PRNG cuts) while 2-6 API publishes of V and W flow on the other stream. Non-trivial = at least one forged message was written and at least one authentic message from the hostile stream was handed to a V handler (so the stream was live and the reference signing context is right). Oracle = harness ground truth by construction: every handler callback and every copy V or W put on any wire must be a message that is authentic (signed by the claimed sender under context+channel), for the handler's / a subscribed channel, with the true sender reported (on the wire: claimed sender and inner channel of a forwarded copy equal those of the authentic message with that payload). Evaluated at exact quiescence.")
 	r.Assume("an authentic message with an out-of-range timestamp may be delivered or dropped (the property does not speak about timestamps)")
 	r.Assume("replays of authentic messages are authentic (de-duplication is C28)")
 	env, err := getEnv()
